@@ -469,6 +469,9 @@ impl Property for C16 {
     fn max_shards(&self) -> usize {
         8
     }
+    fn confirm_attempts(&self) -> usize {
+        8
+    }
     fn run(&self, ctx: &mut Ctx) {
         if !std::path::Path::new(&glas_bin()).exists() {
             ctx.inconclusive.push(format!("glas binary not found at {} (run through ./check)", glas_bin()));
